@@ -9,6 +9,7 @@ vars == <<grp, gset, periodic, NKdiv, NKFFT, NK, rec, res, ambiguous>>
 VecsA == {<<4, 4, 1>>, <<4, 2, 2>>, <<2, 4, 2>>, <<6, 3, 1>>, <<3, 3, 2>>, <<5, 5, 3>>}
 VecsB == VecsA \cup {<<8, 8, 1>>, <<6, 6, 4>>, <<12, 12, 1>>, <<9, 9, 9>>}
 VecsQ == {<<4, 4, 1>>, <<4, 2, 2>>, <<6, 3, 1>>, <<5, 5, 2>>}
+VecsQ2 == {<<4, 4, 1>>, <<6, 3, 1>>, <<5, 5, 2>>}
 PerAll == {<<TRUE, TRUE, TRUE>>, <<TRUE, TRUE, FALSE>>, <<TRUE, FALSE, FALSE>>}
 PerQ == {<<TRUE, TRUE, TRUE>>, <<TRUE, TRUE, FALSE>>}
 RecsQ == {<<1, 1, 1>>, <<2, 2, 1>>, <<3, 3, 3>>}
